@@ -589,7 +589,7 @@ class RegionsSelector(Model):
                 result = self._selector[rid](*inputs)
             else:
                 # If there's no transform for a label, return np.nan
-                result = [np.empty(inputs[0].shape) +
+                result = [np.zeros(inputs[0].shape) +
                           self._undefined_transform_value for i in range(self.n_outputs)]
             for j in range(self.n_outputs):
                 outputs[j][ind] = result[j]
